@@ -12,6 +12,12 @@ from ..report import RuleResult
 
 VAL = finite.Sym('VALUE')
 CUR = finite.Sym('CURRENT')
+VALZ = finite.Falsy('VALUE0')      # a non-NULL value that is false: 0, '', Decimal(0), FALSE
+CURZ = finite.Falsy('CURRENT0')
+
+
+def _same(a, b):
+    return a is b or (isinstance(a, finite.Sym) and isinstance(b, finite.Sym) and a.name.rstrip('0') == b.name.rstrip('0'))
 
 
 def _is_slot(e):
@@ -35,6 +41,19 @@ class AggMachine(finite.Machine):
         if src.startswith('self.operands[') and len(e.args) == 1 and ast.unparse(e.args[0]) == 'context':
             self.reads_operand += 1
             return self.value
+        if src in ('min', 'max') and len(e.args) == 2 and not e.keywords:
+            a, b = (self.ev(x, st) for x in e.args)
+            if a is None or b is None:
+                self.events.append(('null-compare', src))
+                return a if b is None else b
+            if a == b:
+                return a
+            # min(a, b) returns b iff b < a
+            lt = self._order(ast.Lt(), b, a)
+            if src == 'min':
+                return b if lt else a
+            gt = self._order(ast.Gt(), b, a)
+            return b if gt else a
         return NotImplemented
 
     def _sub(self, e, st, m):
@@ -46,10 +65,14 @@ class AggMachine(finite.Machine):
         if left is None or right is None:
             self.events.append(('null-compare', type(op).__name__))
             return False
-        if left == VAL and right == CUR:
+        isv = lambda x: x in (VAL, VALZ)
+        isc = lambda x: x in (CUR, CURZ)
+        if isv(left) and isc(right):
             rel = self.ord
-        elif left == CUR and right == VAL:
+        elif isc(left) and isv(right):
             rel = {'lt': 'gt', 'gt': 'lt', 'eq': 'eq'}[self.ord]
+        elif isv(left) and isv(right) or isc(left) and isc(right):
+            rel = 'eq'
         else:
             raise AnalysisError('aggregate update: ordering comparison between unexpected operands')
         return {ast.Lt: rel == 'lt', ast.Gt: rel == 'gt', ast.LtE: rel in ('lt', 'eq'), ast.GtE: rel in ('gt', 'eq')}[type(op)]
@@ -114,8 +137,8 @@ def rule_aggclass(P) -> RuleResult:
 
         # --- isolation: update writes only its own slot; nothing on self, nothing foreign
         cases = []
-        slots = [None, CUR]
-        for value in (None, VAL):
+        slots = [None, CUR, CURZ]
+        for value in (None, VAL, VALZ):
             for slot in slots:
                 for order in ('lt', 'eq', 'gt'):
                     try:
@@ -172,7 +195,7 @@ def rule_aggclass(P) -> RuleResult:
         elif name == 'count':
             for value, slot, order, m in cases:
                 w = writes_of(m)
-                want = [('aug', 'Add', 1)] if value is VAL else []
+                want = [('aug', 'Add', 1)] if value is not None else []
                 if w != want:
                     fail('fold', f'count(x) counts non-NULL values: for a {"NULL" if value is None else "non-NULL"} value '
                          f'update() performs {w}, expected {want}')
@@ -184,7 +207,7 @@ def rule_aggclass(P) -> RuleResult:
             mut = MUTATOR_FOR.get(t)
             for value, slot, order, m in cases:
                 w = writes_of(m)
-                want = [] if value is None else ([('mut', mut, (VAL,))] if mut else [('aug', 'Add', VAL)])
+                want = [] if value is None else ([('mut', mut, (value,))] if mut else [('aug', 'Add', value)])
                 if w != want:
                     fail('fold', f'sum over {tname(t)} adds non-NULL values'
                          + (f' with {mut}()' if mut else ' with +=')
@@ -199,16 +222,17 @@ def rule_aggclass(P) -> RuleResult:
                 if value is None:
                     want = [[]]
                 elif slot is None:
-                    want = [[('write', VAL)]]
+                    want = [[('write', value)]]
                 elif order == better:
-                    want = [[('write', VAL)]]
+                    want = [[('write', value)]]
                 elif order == 'eq':
-                    want = [[], [('write', VAL)]]
+                    want = [[], [('write', value)], [('write', slot)]]
                 else:
-                    want = [[]]
+                    want = [[], [('write', slot)]]
                 if w not in want:
                     fail('fold', f'{name} keeps the {"smallest" if name == "min" else "largest"} non-NULL value: with value '
-                         f'{"NULL" if value is None else "non-NULL"}, current {"NULL" if slot is None else "set"}, value '
+                         f'{"NULL" if value is None else "zero/empty" if value is VALZ else "non-NULL"}, current '
+                         f'{"NULL" if slot is None else "zero/empty" if slot is CURZ else "set"}, value '
                          f'{ {"lt": "<", "eq": "==", "gt": ">"}[order]} current, update() performs {w}')
                     break
             if init_kind != 'null':
